@@ -114,6 +114,11 @@ func (H) Gen(p string, seed uint64, tier string) *hx.Case {
 		case 5:
 			b.Size = r.Range(200000, 1<<20)
 		}
+		if r.Chance(0.12) {
+			// around the snappy block size: k*64 KiB -20..+20, mostly incompressible or with an incompressible tail
+			b.Size = (1+r.Intn(3))*65536 - 20 + r.Intn(41)
+			b.Class = []string{"random", "random", "mixed", "repeat"}[r.Intn(4)]
+		}
 		if big && i == 0 {
 			b.Size = 4000000
 		}
